@@ -251,6 +251,10 @@ Fixpoint take_rows (rows_rev : list item) (held height : Z) : list item * Z :=
               else take_rows r held height   (* discarded *)
   end.
 
+(* ... except for a bar that is being popped out: all its rows are kept *)
+Definition flush_take (popout : bool) (rows_rev : list item) (held height : Z) : list item * Z :=
+  if popout then (rows_rev, Z.of_nat (length rows_rev)) else take_rows rows_rev held height.
+
 (* ---------- the acceptor ---------- *)
 Definition eqo (a b : option Z) : bool :=
   match a, b with Some x, Some y => x =? y | None, None => true | _, _ => false end.
@@ -411,7 +415,9 @@ Definition step (s : cst) (e : ev) : option cst :=
           else
           if negb ((fi_shutdown fi =? sh) && Bool.eqb (fi_rm fi) rmf && Bool.eqb (fi_nopop fi) np &&
                    (nrows =? 1 + br_xrows r)) then None else
-          let '(taken, used) := take_rows (List.rev (bar_rows b r fi)) n ht in
+          (* rows of a bar that is being popped out are kept whatever the height: they stay on screen for good and are not
+             part of the frame that is redrawn *)
+          let '(taken, used) := flush_take ((sh =? 2) && pop_mode s && negb np) (List.rev (bar_rows b r fi)) n ht in
           let r0 := set_frame r None in
           let rc := set_st r0 (set_cancelled (br_st r0)) in       (* b.cancel() *)
           let s0 := cs_cycle_flushed (cs_popped s (tl (popped s))) (cycle_flushed s ++ [b]) in
